@@ -156,6 +156,13 @@ static void lock_discipline(int step, int tid) {
     /* POOL_resize's contract: no job is started while threadLimit threads are busy */
     if (step >= 0 && g_snap_valid && now[3] > g_snap[3] && now[3] > now[4])
         oracle("a worker started a job although numThreadsBusy had reached threadLimit");
+    /* POOL_resize's contract under failure (theorem pool_resize_failure_frame): a call in which pthread_create failed reports an error
+     * and leaves threadLimit where it was */
+    {   static int faults_seen;
+        if (step >= 0 && g_snap_valid && zv_total_faults() > faults_seen && now[4] != g_snap[4])
+            oracle("a POOL_resize in which pthread_create failed changed threadLimit");
+        faults_seen = zv_total_faults();
+    }
     memcpy(g_snap, now, sizeof now); g_snap_valid = 1;
 }
 
